@@ -120,6 +120,10 @@ def accessor_problems(facts, b, names, verdict, stack=()):
                 problems.append(("returns Some at %s without passing an age test against ttl" % b.loc(dline),
                                  describe_path(b, p or [])))
             continue
+        if kind == "call" and callee_matches(payload, r"option::Option<.*> as std::ops::FromResidual.*>::from_residual$",
+                                             r"<std::option::Option as std::ops::FromResidual>::from_residual$"):
+            # `?` on an Option: this exit returns None
+            continue
         if kind == "call":
             # delegation: the value comes from another accessor of the same type
             e = prov.call(payload, blk)
@@ -264,7 +268,17 @@ def r2(ctx):
             continue
         rule.analysed(b)
         back = [bi for bi, t in find_calls(b, r"::to_back$", r"LinkedHashMap::<.*>::(insert|to_back)$")]
-        ok_back = must_pass(b, somes, via_blocks=back)
+        # an entry found to be the back entry already needs no move
+        prov_b = prov
+        gb = Guards(b, prov_b, facts)
+        already_back = []
+        for sbi, st, se in gb.switches():
+            inner = se
+            while inner[0] == "un" and inner[1] == "Not":
+                inner = inner[2]
+            if inner[0] == "call" and any(x[0] == "call" and short(x[1]).endswith("LinkedHashMap::back") for x in walk(inner)):
+                already_back.append((sbi, gb.bool_edges(sbi)[1]))
+        ok_back = must_pass(b, somes, via_blocks=back, via_edges=already_back)
         stamp = []
         for blk in b.blocks:
             if blk.idx not in b.live_blocks():
